@@ -5,7 +5,7 @@ SMALL = ['-include', '/verif/harness/C18/prelude_bufsiz.h']
 HARNESSES = [
   H('attr_name_p%d' % p, 'c', 'harness/C18/h_attrname.c', repo_srcs=['src/exp2python/src/classes_python.c', 'src/exp2python/src/classes_misc_python.c'],
     cflags=['-DHAVE_CONFIG_H', '-I/repo/src/exp2python/src'], native_cflags=['-DHAVE_CONFIG_H'], unwind_is_violation=True, models=['lib/cmodels/printf_null.c'],
-    defs={'quick': {'NB': 5, 'FIXPREFIX': p}, 'thorough': {'NB': 7, 'FIXPREFIX': p}}, unwind={'quick': 40, 'thorough': 40}, object_bits=10,
+    defs={'quick': {'NB': 5, 'FIXPREFIX': p}, 'thorough': {'NB': 7, 'FIXPREFIX': p}}, unwind={'quick': 13, 'thorough': 15}, unwindset=['is_python_keyword.0:40', 'harness.4:24'], object_bits=10, mem_gb=24,   # copy loops need name + prefix + 1 iterations (a loop that runs on is the defect); 40 is for the keyword table scan
     bounds='attribute names of 1..5 (7) bytes over {a d e f i n s o r p E S . _ blank newline}, %s the SELF\\\\ prefix; real BUFSIZ (a copy loop that runs past the unwind bound is reported and replayed under ASan)' % ('with' if p else 'without'),
     stubs=['fprintf etc.: empty bodies (not reached)'], out_of_claim='constructor parameter order, type definitions, importability of the whole module, names longer than the bound') for p in (0, 1)
 ] + [
